@@ -128,6 +128,8 @@ class Realiser:
         core.write_tree(proj, TINY)
         label = []
         target = str(proj) if w["dir_exists"] else str(d / "no_such_dir")
+        if not w["dir_exists"]:
+            label.append("target directory missing")
         argv = [target] + TRIVIAL
         env = {}
         for k in ("CODEMODDER_AZURE_OPENAI_API_KEY", "CODEMODDER_AZURE_OPENAI_ENDPOINT", "CODEMODDER_AZURE_LLAMA_API_KEY",
